@@ -35,6 +35,23 @@ def frame_checks(w, rep, site, Rd, xC, W, thrust=None, spec=None):
     g.update({c: False for c in pole_conditions(Rd)})     # heading taken from a quaternion: regular Euler band
     R = regular(Rd, g)
     rep.note("%s: %d degenerate-norm guards set to the regular branch" % (site, len(g)))
+    # every normalisation is guarded by a test on the norm it divides by (a guard on a different norm lets 0/0 through:
+    # near-zero |zB x heading| with ordinary thrust, or ordinary |zB x heading| with the guard closed)
+    seen_g = set()
+    for M_ in ([Rd] + ([thrust] if thrust is not None else [])):
+        for p_ in M_.flat():
+            for a in all_atoms(p_):
+                if a.kind != "ite" or a.key[0] not in g or g[a.key[0]] is not True or not isinstance(a.key[1], Poly):
+                    continue
+                dens = {x for mono in a.key[1].t for x, e in mono if x.kind == "sqrt" and e < 0}
+                tested = set(all_atoms(a.key[0]))
+                for s_ in dens:
+                    if (a.key[0], s_) in seen_g:
+                        continue
+                    seen_g.add((a.key[0], s_))
+                    rep.check("C14.guard", "%s: division by %s is selected only when that norm exceeds the tolerance" % (site, short(Poly.atom(s_), 60)), s_ in tested,
+                              "the branch that divides by %s is selected by %s, a test on a different quantity: the division is unguarded (0/0 -> NaN when that norm vanishes) and the fallback is taken when it need not be"
+                              % (short(Poly.atom(s_), 60), short(a.key[0], 80)), where=W, fact={"guard": short(a.key[0], 100)})
 
     def vd(inst, A, B, what):
         """General comparison first; when it is undecided and a specialisation of the inputs is available (zero feedback
@@ -263,6 +280,7 @@ def run(w, rep, tier):
     rep.rule("C14.API", "the set-point generators resolve with the documented signatures")
     rep.rule("C14.frame", "on the regular branch: R^T R = I, xB = yB x zB, yB = (zB x xC)/|zB x xC| perpendicular to the heading, thrust = |v| with zB = v/|v|")
     rep.rule("C14.force", "the demanded force whose direction is body z is the norm-limited feedback term plus (thrust_trim + ki_z z_i) along world z (shared with C15.clamp)")
+    rep.rule("C14.guard", "each normalised vector v/|v| of the frame construction is selected by the tolerance test on that same |v|")
     rep.rule("C14.degenerate", "each degenerate-norm fallback (near-zero thrust, thrust parallel to the heading), taken alone, still yields R^T R = I")
     rep.rule("C14.flow", "returned attitude is SO3Quat.from_Matrix of the constructed frame; v_b = C_be^T v_e")
     rep.rule("C14.euler-eq", "M_b = J omega_dot + omega x (J omega) with the very rates that are returned")
@@ -281,6 +299,7 @@ def run(w, rep, tier):
     check_from_matrix(w, rep, R="C14.flow", RV="C14.flow", RS="C14.flow")
     rep.floor("C14.frame", 14)
     rep.floor("C14.degenerate", 6)
+    rep.floor("C14.guard", 4)
     rep.floor("C14.SIB", 6)
     rep.undecided_clause("rates, moment and thrust magnitude on the degenerate branches (only orthonormality of the fallback frames is decided, C14.degenerate)")
     rep.undecided_clause("yaw rate r and the angular acceleration of the flatness maps (Euler-rate singularities)")
